@@ -49,6 +49,10 @@ func c03Triggers(moment string, k int, action string) []trigger {
 		return []trigger{{"arch.do", 2, "pause"}, {"pause.ack", k, action}}
 	case "paused-then-resumed":
 		return []trigger{{"arch.do", 2, "pause"}, {"pause.ack", 2, "resume"}, {"pause.resumed", 1, action}}
+	case "paused-mid-postprocess":
+		// the first document post-processed is the hub (more outlinks than the stage channel buffers):
+		// the pause lands while a postprocessor worker is handing its outlinks to the finisher
+		return []trigger{{"post.recv", 1, "pause"}, {"pause.ack", 1 + k%3, action}}
 	}
 	return nil // after-start, after-drain: handled by the driver
 }
@@ -192,7 +196,7 @@ type c03Job struct {
 }
 
 func c03Jobs(r *vc.Run) []c03Job {
-	moments := []string{"after-start", "mid-fetch", "pre-forward", "post-recv", "feedback-wait", "at-notify", "paused-some", "paused-all", "paused-then-resumed", "after-drain"}
+	moments := []string{"after-start", "mid-fetch", "pre-forward", "post-recv", "feedback-wait", "at-notify", "paused-some", "paused-all", "paused-then-resumed", "paused-mid-postprocess", "after-drain"}
 	var jobs []c03Job
 	n := r.N(60, 512)
 	for i := 0; i < n; i++ {
